@@ -1299,7 +1299,9 @@ class Gen:
                     continue
                 level = r.choice(list(range(len(t["idx"]))) + [len(t["idx"])] * (1 if r.chance(0.1) else 0) or [0])
                 sel = r.wchoice([(2, None), (2, "count"), (2, "one"), (5, "many")])
-                if sel == "one":
+                if sel == "one" and not t["cols"]:
+                    sel = None
+                elif sel == "one":
                     sel = {"one": r.choice(t["cols"])}
                 elif sel == "many":
                     sel = {"many": list(t["cols"])}
